@@ -1932,6 +1932,11 @@ func (t *FnTrans) unop(x *ssa.UnOp) {
 			return
 		}
 		T := t.resolve(x.Type())
+		if _, isAlloc := x.X.(*ssa.Alloc); !isAlloc && containsLockByValue(T, 0) {
+			// reading a whole struct that holds a lock by value copies the lock in whatever state it is in (what go vet's
+			// copylocks pass reports): a copy made while someone holds the original is born locked
+			t.oblige("lockcopy", "false", "copy of a value that contains a lock ("+T.String()+")")
+		}
 		if fvv, ok := x.X.(*ssa.FreeVar); ok && t.stableFreeVar(fvv) {
 			// a captured variable that is assigned once, before the closure is created, and that the closure only
 			// reads: every load during this activation yields the value the cell had at entry (no callee has its address)
@@ -2569,4 +2574,36 @@ func isByteSlice(T types.Type) bool {
 	}
 	b, ok := sl.Elem().Underlying().(*types.Basic)
 	return ok && (b.Kind() == types.Uint8 || b.Kind() == types.Byte)
+}
+
+// containsLockByValue: T is, or holds by value, a type with pointer-receiver Lock and Unlock methods.
+func containsLockByValue(T types.Type, depth int) bool {
+	if depth > 4 {
+		return false
+	}
+	if _, isPtr := T.Underlying().(*types.Pointer); isPtr {
+		return false
+	}
+	if _, isIface := T.Underlying().(*types.Interface); isIface {
+		return false
+	}
+	if _, isTP := T.(*types.TypeParam); isTP {
+		return false
+	}
+	ms := types.NewMethodSet(types.NewPointer(T))
+	own := types.NewMethodSet(T)
+	if ms.Lookup(nil, "Lock") != nil && ms.Lookup(nil, "Unlock") != nil && own.Lookup(nil, "Lock") == nil {
+		return true
+	}
+	switch u := T.Underlying().(type) {
+	case *types.Struct:
+		for i := 0; i < u.NumFields(); i++ {
+			if containsLockByValue(u.Field(i).Type(), depth+1) {
+				return true
+			}
+		}
+	case *types.Array:
+		return containsLockByValue(u.Elem(), depth+1)
+	}
+	return false
 }
